@@ -509,6 +509,30 @@ def score_chunk_fn(ctx):
     """score_chunk, with a hand-written array_split layout (telescoping divmod bounds) rewritten to the library call"""
     import copy as _copy
     f = ctx.fn("scoring.main.score_chunk")
+    # np.array_split(<expression>, K): the list that is split gets a name of its own (the rules below speak about `the candidate list`)
+    sp_ = [c for c in calls(f.node, name="np.array_split") if c.args and not isinstance(c.args[0], ast.Name)
+           and not (isinstance(c.args[0], ast.Call) and call_name(c.args[0]) == "np.arange")]
+    if len(sp_) == 1:
+        node_ = _copy.deepcopy(f.node)
+        c_ = [c for c in calls(node_, name="np.array_split") if c.args and not isinstance(c.args[0], ast.Name)][0]
+        par_ = enclosing_map(node_)
+        st_ = c_
+        while st_ in par_ and not (isinstance(st_, ast.stmt) and any(st_ in (getattr(par_[st_], fld, None) or []) for fld in ("body", "orelse", "finalbody"))):
+            st_ = par_[st_]
+        owner_ = par_.get(st_)
+        for fld in ("body", "orelse", "finalbody"):
+            lst_ = getattr(owner_, fld, None)
+            if isinstance(lst_, list) and st_ in lst_:
+                k_ = lst_.index(st_)
+                nm_ = "candidates__split"
+                lst_.insert(k_, ast.Assign(targets=[ast.Name(id=nm_, ctx=ast.Store())], value=c_.args[0], lineno=st_.lineno, col_offset=0))
+                c_.args[0] = ast.Name(id=nm_, ctx=ast.Load())
+                ast.fix_missing_locations(node_)
+                f = _copy.copy(f)
+                f.node = node_
+                from engine.normalize import renumber
+                renumber(f.node)
+                break
     fused = common.fuse_chain_links(f.node)            # chunks = array_split(..); mine = chunks[i].tolist()  is one chain
     if U(fused) != U(f.node):
         f = _copy.copy(f)
@@ -662,8 +686,11 @@ def r3(ctx):
             pk = kwargs(sc).get("plates")
             dict_locals = {n.targets[0].id for n in walk_own(f.node) if isinstance(n, ast.Assign) and len(n.targets) == 1 and isinstance(n.targets[0], ast.Name)
                            and isinstance(n.value, (ast.DictComp, ast.Dict))}
+            for _ in range(2):          # .. or another name of such a local
+                dict_locals |= {n.targets[0].id for n in walk_own(f.node) if isinstance(n, ast.Assign) and len(n.targets) == 1 and isinstance(n.targets[0], ast.Name)
+                                and isinstance(n.value, ast.Name) and n.value.id in dict_locals}
             other_defs = {n.targets[0].id for n in walk_own(f.node) if isinstance(n, ast.Assign) and len(n.targets) == 1 and isinstance(n.targets[0], ast.Name)
-                          and not isinstance(n.value, (ast.DictComp, ast.Dict))}
+                          and not isinstance(n.value, (ast.DictComp, ast.Dict)) and not (isinstance(n.value, ast.Name) and n.value.id in dict_locals)}
             ok = ok and isinstance(pk, ast.Name) and pk.id in dict_locals - other_defs and U(kwargs(sc).get("rng")) == "rng"
     ctx.check("R3", f"{f.site()}::every-score-stored", ok, "every (id, score) returned by the scorer is added to the returned holder",
               "not every (plate id, score) pair the scorer returns is stored unconditionally in the returned holder")
